@@ -186,6 +186,7 @@ class CentralizedTaskingEngine(TaskingEngine):
             Query(Observation)
             .join(Epoch)
             .filter(Epoch.timestampISO == datetime_epoch.isoformat(timespec="microseconds"))
+            .filter(Observation.sensor_id.in_(self.sensor_list))
         )
         imported_observation_data = self._importer_db.getData(query)
 
